@@ -56,6 +56,13 @@ func runRefined(s *core.Shard, offset int) {
 		{"build-short-form-refined-with-a-dockerfile",
 			"    build: ./dir\n", "    build: {context: ./dir}\n",
 			"    build: {dockerfile: Dockerfile.dev}\n", ""},
+		// env_file `required` given as text (the schema admits a string, a variable gives one)
+		{"env-file-required-as-text-false",
+			"    env_file:\n      - {path: ./absent.env, required: \"false\"}\n", "    env_file:\n      - {path: ./absent.env, required: false}\n",
+			"    labels: {later: \"1\"}\n", ""},
+		{"env-file-required-from-a-variable",
+			"    env_file:\n      - {path: ./absent.env, required: \"${REFINED_UNSET:-false}\"}\n", "    env_file:\n      - {path: ./absent.env, required: false}\n",
+			"    labels: {later: \"1\"}\n", ""},
 		{"build-short-form-refined-with-an-inline-dockerfile",
 			"    build: ./dir\n", "    build: {context: ./dir}\n",
 			"    build: {dockerfile_inline: \"FROM scratch\"}\n", ""},
